@@ -74,10 +74,12 @@ Definition is_billing (g : gran) : bool :=
 
 (* what pandas' DatetimeIndex.inferred_freq returned for the index (pandas is not modelled: the harness
    reads this from pandas and passes it in).  Fixed m = a fixed-length frequency of m minutes (15min, h, D = 1440,
-   30D = 43200, ...), Months n = MonthBegin/MonthEnd with multiple n, OtherFreq = anything else (W-THU, B, ...). *)
+   30D = 43200, ...; also what freq_as_timedelta makes of the calendar offsets it knows: nW-XXX = n weeks, nB
+   (BusinessDay) = n days, nbh (BusinessHour) = n hours), Months n = MonthBegin/MonthEnd with multiple n,
+   OtherFreq = anything else (the comparison with a Timedelta raises TypeError). *)
 Inductive inferred := NoFreq | Fixed (minutes : Z) | Months (n : Z) | OtherFreq.
 
-(* compute_minimum_granularity(index, default); None = the code raises (TypeError: Week <= Timedelta) *)
+(* compute_minimum_granularity(index, default); None = the code raises (TypeError: <offset> <= Timedelta) *)
 Definition granularity (inf : inferred) (ts : list Z) (dflt : gran) : option gran :=
   if (Nat.leb (length ts) 1) then Some dflt else
   match inf with
